@@ -92,6 +92,15 @@ func VerifC16Flip() {
 func VerifC16Dense() {
 	a, da := vGenBitmap("a")
 	snap := vBSnapshot(a)
+	if vsym.Param("sizeonly") == 1 {
+		// bitmaps reaching up to 2^32-1: the dense form has 2^26 words, only its size is checked
+		sz := a.DenseSize()
+		vsym.Observe(sz)
+		vsym.Assert(sz == uint64(a.Maximum())/64+1, "dense-size-formula")
+		vBUnchanged(a, snap, "argument-modified")
+		vsym.Reach("end")
+		return
+	}
 	dense := a.ToDense()
 	sz := a.DenseSize()
 	vsym.Assert(uint64(len(dense)) == sz, "dense-size")
